@@ -13,7 +13,11 @@ var collRe = vkit.NewCollector("C05", "TestPanicHandlerReenters", "1-4 handlers 
 
 func TestPanicHandlerReenters(t *testing.T) { vkit.Check(t, collRe, GenRe, RunRe) }
 
+var collConc = vkit.NewCollector("C05", "TestConcurrentPanics", "2-4 goroutines publish 1-8 events each at the same time to 1-3 handlers (plain/context-aware x Async x Sequential) that panic on every Mod-th event (Mod 1, 2, 3, 5 or never) and yield inside every invocation, 5 rounds on fresh buses with drawn GOMAXPROCS, under a real-time watchdog (a hang must reproduce). Oracle: no panic reaches a publisher, every handler receives every event exactly once, the panic handler is called exactly once per panic, and one more publish after all publishers returned reaches every handler. Non-trivial = a synchronous Sequential handler that panics.")
+
 func TestMain(m *testing.M) { vkit.Main(m) }
+
+func TestConcurrentPanics(t *testing.T) { vkit.Check(t, collConc, GenConc, RunConc) }
 
 func TestPanics(t *testing.T) {
 	rapid.Check(t, func(rt *rapid.T) {
@@ -28,5 +32,5 @@ func TestPanics(t *testing.T) {
 
 func TestReplay(t *testing.T) {
 	r := vkit.NeedReplay(t)
-	_ = vkit.ReplayCase(t, r, coll, Run) || vkit.ReplayCase(t, r, collRe, RunRe)
+	_ = vkit.ReplayCase(t, r, coll, Run) || vkit.ReplayCase(t, r, collRe, RunRe) || vkit.ReplayCase(t, r, collConc, RunConc)
 }
